@@ -215,6 +215,16 @@ pub fn plan(tier: Tier) -> Plan {
             }));
         }
     }
+    for part in 0..16usize {
+        p.units.push(unit("key-length-ladder-2..1100-(finite-family)", format!("length ladder part {}", part), move |st, rep| {
+            for (_, kvs) in key_length_ladder(part, 16) {
+                if kvs.iter().any(|x| x.0.len() > 1101) { continue; }
+                st.nontrivial += 1;
+                st.count("length_ladder_cases", 1);
+                do_case(&kvs, Front::RawInsert, (2, 2), 0, st, rep);
+            }
+        }));
+    }
     for part in 0..32usize {
         p.units.push(unit("fanout-x-output-width-grid", format!("grid part {}", part), move |st, rep| {
             for (_, kvs) in fan_width_grid(part, 32) {
